@@ -2,7 +2,7 @@
 """Writes /verif/seeded/INDEX.md from the meta.json files of the independently written seeded changes."""
 import glob, json, os
 rows = []
-for m in sorted(glob.glob("/verif/seeded/A-*/meta.json")):
+for m in sorted(glob.glob("/verif/seeded/A*-C*/meta.json")):
     d = json.load(open(m))
     rows.append(d)
 with open("/verif/seeded/INDEX.md", "w") as f:
